@@ -169,6 +169,10 @@ class _ShardState:
         self.fail = None       # (case, sig, detail) latest failing case in the hypothesis run
         self.t_fail = None
         self.failures = {}     # sig -> (case, detail)
+        self.deadline = time.time() + float(os.environ.get("VERIF_SHARD_DEADLINE", SHARD_DEADLINE_S.get(tier, 1500)))
+        self.case_limit = int(float(os.environ.get("VERIF_CASE_LIMIT", CASE_LIMIT_S.get(tier, 300))))
+        self.skipped_after_deadline = 0
+        self.timed_out_cases = 0
 
     def to_violation(self, exc):
         """Map an exception escaping a check to a Violation or re-raise as harness error."""
@@ -187,9 +191,33 @@ class _ShardState:
         return None
 
     def run_case(self, case):
+        if time.time() > self.deadline:
+            self.skipped_after_deadline += 1
+            return
         self.evals += 1
+        import signal
+
+        def on_alarm(signum, frame):
+            raise CaseTimeout()
+        armed = False
         try:
-            self.clause.check(case, self.ctx)
+            if hasattr(signal, "SIGALRM"):
+                signal.signal(signal.SIGALRM, on_alarm)
+                signal.alarm(self.case_limit)
+                armed = True
+        except ValueError:          # not in the main thread of the worker
+            armed = False
+        try:
+            try:
+                self.clause.check(case, self.ctx)
+            finally:
+                if armed:
+                    signal.alarm(0)
+        except CaseTimeout:
+            # inconclusive: stop spending time in this shard, report nothing
+            self.timed_out_cases += 1
+            self.deadline = 0
+            return
         except BaseException as exc:  # noqa: BLE001
             if isinstance(exc, (KeyboardInterrupt, SystemExit, MemoryError)):
                 raise
@@ -231,6 +259,15 @@ class _ShardState:
             self.nt_samples.append(_short(case))
 
 
+class CaseTimeout(BaseException):
+    """A single case ran longer than the per-case limit (not an Exception: helper wrappers must not swallow it)."""
+
+
+# wall-clock limits per shard; a limit that is hit makes the run INCONCLUSIVE for the rest of that shard, never a violation
+SHARD_DEADLINE_S = {"quick": 1500, "thorough": 6 * 3600}
+CASE_LIMIT_S = {"quick": 300, "thorough": 1800}
+
+
 def _run_shard(task):
     (prop_id, clause_name, shard, nshards, tier, seed, suppressed) = task
     t0 = time.time()
@@ -270,6 +307,7 @@ def _run_shard(task):
             "suppressed_hits": st.suppressed_hits,
             "samples": st.samples + st.nt_samples,
             "failures": {sig: (enc(case), detail) for sig, (case, detail) in st.failures.items()},
+            "skipped_after_deadline": st.skipped_after_deadline, "timed_out_cases": st.timed_out_cases,
         })
     except BaseException as exc:  # noqa: BLE001
         out["error"] = "".join(traceback.format_exception(type(exc), exc, exc.__traceback__))
@@ -562,6 +600,7 @@ def run_property(prop_id, tier, seed, workers=None):
                 known_seen[sig] += r["known_hits"].get(sig, 0)
             a["suppressed_hits"] += r["suppressed_hits"]
             a["wall"] = max(a["wall"], r["wall"])
+            a["inconclusive"] = a.get("inconclusive", 0) + r.get("skipped_after_deadline", 0) + r.get("timed_out_cases", 0)
             for sig, (case_enc, detail) in r["failures"].items():
                 k = (r["clause"], sig)
                 old = new_fail.get(k)
@@ -645,6 +684,7 @@ def run_property(prop_id, tier, seed, workers=None):
                     "classes": dict(sorted(agg[c.name]["classes"].items())),
                     "counters": dict(sorted(agg[c.name]["counters"].items())),
                     "excluded_by_known_finding": sum(agg[c.name]["known_hits"].values()),
+                    "inconclusive_after_time_limit": agg[c.name].get("inconclusive", 0),
                     "shard_wall_s_max": round(agg[c.name]["wall"], 2),
                 } for c in clauses},
             "known_findings_hit": dict(known_seen),
@@ -674,6 +714,10 @@ def run_property(prop_id, tier, seed, workers=None):
                 prop_id, k["what"], known_seen[k["signature"]]))
         else:
             print("NOTE: listed finding not reproduced this run: property=%s %s" % (prop_id, k["what"]))
+    for c in clauses:
+        if agg[c.name].get("inconclusive"):
+            print("NOTE: property=%s clause=%s hit its wall-clock limit; %d case(s) were not evaluated (inconclusive, not a violation)"
+                  % (prop_id, c.name, agg[c.name]["inconclusive"]))
     print("SUMMARY property=%s tier=%s seed=%s evaluations=%d distinct_nontrivial=%d violations=%d wall=%.1fs"
           % (prop_id, tier, seed, total_evals, total_nt, len(violations), wall))
     for cname, d in fuzz_info.items():
